@@ -32,16 +32,17 @@ static void violation(State &s, const std::string &kind, const std::string &msg,
   std::shared_ptr<z3::model> m;
   if (cond)
   {
-    z3::check_result r = solve(s, cond, &m);
+    z3::check_result r = z3::unknown;
+    try { r = solve(s, cond, &m); } catch (PathEnd &) { return; }
     if (r != z3::sat)
     {
       // no verdict (solver timeout): never reported as a violation; the run is inconclusive
-      if (r == z3::unknown) { INCONCLUSIVE = true; INCONCLUSIVE_WHY = "solver gave no verdict for a possible violation: " + kind + " " + msg; }
+      if (r == z3::unknown && !OPT.tolerate_unknown) { INCONCLUSIVE = true; INCONCLUSIVE_WHY = "solver gave no verdict for a possible violation: " + kind + " " + msg; }
       return;
     }
   }
   else if (s.model) m = s.model;
-  else solve(s, nullptr, &m);
+  else { try { solve(s, nullptr, &m); } catch (PathEnd &) {} }
   for (auto &in : s.inputs)
   {
     std::string val = "0";
@@ -152,7 +153,7 @@ static Val do_load(State &s, const Val &p, unsigned bits, bool want_ptr)
   const Obj &o = *find_obj(s, p.obj);
   if (p.conc) return load_conc(s, o, p.c, bits, want_ptr);
   // enumerate the feasible offsets; through the narrow variables they depend on when possible
-  Support sp = small_support(*p.e, 10);
+  Support sp = small_support(*p.e, OPT.support_bits);
   std::vector<std::pair<z3::expr, uint64_t>> targets;     // (condition, offset)
   if (sp.ok)
   {
@@ -202,7 +203,7 @@ static Val do_load(State &s, const Val &p, unsigned bits, bool want_ptr)
     }
     bool all_conc_ptrs = true;
     for (auto &cv : vals) if (!(cv.second.isptr && cv.second.obj >= 0 && cv.second.conc)) all_conc_ptrs = false;
-    if (all_conc_ptrs && bits == 64)
+    if (OPT.merge_ptrs && all_conc_ptrs && bits == 64)
     {
       Val mv; mv.bits = 64; mv.isptr = true; mv.obj = -2; mv.conc = true; mv.c = 0;
       mv.multi = std::make_shared<std::vector<PtrTarget>>();
